@@ -531,13 +531,23 @@ def check_c13(tier, seed, chk):
 
     def one(fs):
         pos, skip, exact = fs
-        return fs, run_zoo(binary, ["--test", "--include-ignored"] + filter_argv(pos, skip, exact), timeout=300)
+        return fs, run_zoo(binary, ["--test", "--include-ignored"] + filter_argv(pos, skip, exact), timeout=300), \
+            run_zoo(binary, ["--list", "--format", "terse", "--include-ignored"] + filter_argv(pos, skip, exact), {"NEXTEST": "1"}, timeout=120)
 
     outcomes = set()
-    for fs, r in pmap(one, sets):
+    for fs, r, rl in pmap(one, sets):
         pos, skip, exact = fs
         sel = selected(cases, pos, skip, exact)
         count_run(res, r, len(r.log))
+        count_run(res, rl, len(rl.out.splitlines()))
+        # the nextest listing shows exactly the selected cases as well (per argument)
+        if rl.rc == 0:
+            listed = sorted(l[: -len(": benchmark")] for l in rl.out.split("\n") if l.endswith(": benchmark"))
+            want_listed = sorted(c["path"] for c in sel)
+            if listed != want_listed:
+                violation(res, {"check": "cli-filter-terse", "exact": exact, "positives": min(len(pos), 2), "skips": min(len(skip), 2)},
+                          "filters positive=%s skip=%s exact=%s: the terse listing shows cases that are not selected %s / lacks selected cases %s" % (
+                              list(pos), list(skip), exact, sorted(set(listed) - set(want_listed))[:4], sorted(set(want_listed) - set(listed))[:4]), rl)
         sig_base = {"check": "cli-filter", "exact": exact, "positives": min(len(pos), 2), "skips": min(len(skip), 2)}
         if r.rc != 0:
             violation(res, dict(sig_base, **{"class": "crash"}), "zoo --test with filters %s/%s exited with %s: %s" % (pos, skip, r.rc, r.err[-300:]), r)
@@ -1437,6 +1447,9 @@ RUNNER_SOURCES = [
     ("env skip_ext_time", ["--sample-size", "1"], {"DIVAN_SKIP_EXT_TIME": "true"}, None, {"skip_ext": True, "sample_size": 1}),
     ("builder skip_ext_time", ["--sample-size", "1"], {}, "from_args;skip_ext_time=true;main", {"skip_ext": True, "sample_size": 1}),
     ("cli max_time tuned", ["--max-time", "0.0000000304"], {}, None, {"max_time_ps": 30000}),
+    ("cli items alone", ["--items-count", "5"], {}, None, {"items": 5}),
+    ("env bytes alone", [], {"DIVAN_BYTES_COUNT": "77"}, None, {"bytes": 77}),
+    ("builder cycles alone", [], {}, "from_args;cycles_count=4;main", {"cycles": 4}),
     ("builder chars+cycles", ["--sample-size", "1", "--sample-count", "1"], {}, "from_args;chars_count=3;cycles_count=4;main", {"sample_size": 1, "sample_count": 1, "chars": 3, "cycles": 4}),
 ]
 
